@@ -238,7 +238,7 @@ pub fn c05_world(seed: u64, corpus: &[Program]) -> (World, Dims) {
             j.args = kept;
         }
     }
-    (World { prop: "C05".into(), seed, threads, jobs, sched, note: format!("{:?}", d), log_level, env, stdio: 0 }, d)
+    (World { prop: "C05".into(), seed, threads, jobs, sched, note: format!("{:?}", d), log_level, env, stdio: if log_level == 3 && r.chance(1, 20) { 1 + r.below(4) as u8 } else { 0 } }, d)
 }
 
 /// C05 directed pass: program `p` alone on a fresh thread with the k-th hash key derived from `base`.
